@@ -508,8 +508,15 @@ class LogWorld(ls.World):
 
     def start(self):
         try:
-            self.sq.start()
-            hs = self.hub.wait_helpers(1, timeout=30)
+            self.sq.start(wait_ready=False)
+            for attempt in range(5):        # an overloaded machine can exceed lockstep's 60 s start-up allowance
+                try:
+                    self.sq.wait_ready()
+                    break
+                except HarnessError as e:
+                    if 'not ready after' not in str(e) or attempt == 4:
+                        raise
+            hs = self.hub.wait_helpers(1, timeout=60)
             self.helper = hs[0][1]
             self.pids.append(int(hs[0][0].split()[1]))
         except BaseException:
